@@ -157,6 +157,29 @@ def explore(tier, seed):
                 cases.append(("mem", ents, what, "/", df, {}))
             for md in (0, 1, 2):
                 cases.append(("mem", ents, "info", "/", df, {"max_depth": md}))
+    # systematic blocks (random sampling starves option interactions):
+    # (1) start-path spellings x max_depth x method x order on a deep tree
+    deep = [("top", [("f0.txt", None), ("a", [("f1.txt", None), ("b", [("f2.txt", None), ("c", [("f3.txt", None)])])]),
+                     ("empty", [])]), ("g", None)]
+    for start in ("top", "top/", "/top/", "/top", "top//", "/", "top/a", "top/a/", "/top/a//"):
+        for md in (None, 0, 1, 2, 3):
+            for df in (False, True):
+                for what in ("info", "files", "dirs", "walk"):
+                    cases.append(("mem", deep, what, start, df, {} if md is None else {"max_depth": md}))
+    # (2) pairs of glob patterns sharing leading components, as filter and as exclude
+    tree2 = [("a", [("b", [("x.py", None)]), ("c", [("y.py", None)]), ("z.py", None)]), ("c", [("w.py", None)]),
+             ("top.py", None)]
+    gp = ["a/b/*.py", "a/c/*.py", "/a/b/*", "/c/*", "a/*", "**/*.py", "*/c/*", "a/*/*.py", "c/*", "a/b/x.py"]
+    for p1, p2 in itertools.permutations(gp, 2):
+        for key in ("filter_glob", "exclude_glob"):
+            for df in (False, True):
+                cases.append(("mem", tree2, "files" if df else "info", "/", df, {key: [p1, p2]}))
+    # (3) every single name-filter option with every name pattern
+    for key in ("filter", "exclude", "filter_dirs", "exclude_dirs"):
+        for pat in NAME_PATS:
+            for df in (False, True):
+                cases.append(("mem", deep[0][1] + [(".d", None), ("F.TXT", None), ("a*b", [("q", None)])], "info", "/", df,
+                              {key: [pat]}))
     n_rand = 2500 if thorough else 350
     for i in range(n_rand):
         ents = random_tree(rnd, [rnd.randint(1, 60 if thorough else 25)])
